@@ -188,9 +188,17 @@ def m_ones(I, e, args, kws):
 @model("numpy.zeros_like", "numpy.ones_like", "numpy.empty_like")
 def m_like(I, e, args, kws):
     x = args[0]
+    nm = M.norm_text(e.func)
     out = Val(shp=x.flat().data | x.flat().shp, ctrl=x.flat().ctrl, shape=x.shape, fresh="FRESH",
-              unit=POLY if "zeros" in M.norm_text(e.func) else ONE, sign="NONNEG",
-              tags={"kind": "ndarray", "zero_init": "zeros" in M.norm_text(e.func)})
+              unit=POLY if ("zeros" in nm or "empty" in nm) else ONE, sign="NONNEG",
+              tags={"kind": "ndarray", "zero_init": ("zeros" in nm or "empty" in nm)})
+    shp = kws.get("shape")
+    if shp is not None:
+        out.shape = shape_from_arg(shp)
+        out.shp |= shp.flat().data | shp.flat().shp
+    if "dtype" not in kws:
+        # the element type is inherited from the prototype array
+        out.tags["dtype_from"] = frozenset(x.flat().data)
     return out
 
 
@@ -787,7 +795,6 @@ def m_concat(I, e, args, kws):
             if u is None or u == POLY:
                 u = vu
             elif vu != POLY and vu != u:
-                I.type_error(e, "QTY", f"{name} of arrays with units [{ustr(u)}] and [{ustr(vu)}]")
                 ok_unit = False
                 break
         out.unit = u if ok_unit else None
@@ -846,6 +853,10 @@ def m_concat(I, e, args, kws):
 def m_repeat(I, e, args, kws):
     x = args[0]
     out = mk(args, fresh="FRESH", unit=x.unit, frame=x.frame, sign=x.sign, tags={"kind": "ndarray"})
+    for r_ in list(args[1:]) + list(kws.values()):
+        rf = r_.flat()
+        out.data = (out.data - rf.data) | (x.flat().data & rf.data)
+        out.shp |= rf.data | rf.shp
     name = M.norm_text(e.func).split(".")[-1]
     out.tags["repeat_kind"] = name
     reps = args[1] if len(args) > 1 else kws.get("repeats", kws.get("reps"))
@@ -1326,7 +1337,9 @@ def cvx_binop(I, node, op, opn, l, r):
             ok, unit = ueq(l.unit, r.unit)
             if not ok:
                 I.type_error(node, "QTY", f"[{ustr(l.unit)}] {'+' if isinstance(op, ast.Add) else '−'} [{ustr(r.unit)}] "
-                                          f"in a cvxpy expression", units=(l.unit, r.unit))
+                                          f"in a cvxpy expression", units=(l.unit, r.unit),
+                             sub=("literal" if (l.unit == ONE and l.tag("isnum")) or (r.unit == ONE and r.tag("isnum"))
+                                  else "mismatch"))
                 unit = None
         frame = frame_addsub(I, node, isinstance(op, ast.Add), l, r)
     elif isinstance(op, ast.Mult):
@@ -1480,6 +1493,10 @@ def constraint_vals(I, cons):
     seen = set()
     def walk(v):
         if v is None:
+            return
+        if v.tag("cvx") == "constraint" and v.tag("alts"):
+            for x in v.tag("alts"):
+                walk(x)
             return
         if v.tag("cvx") == "constraint":
             if id(v) not in seen:
